@@ -175,6 +175,9 @@ func (re *refExec) execSet(n *Node, objType string, sels []*Sel, path pathT) map
 	td := re.s.Type(objType)
 	for _, g := range groups {
 		f0 := g.fields[0]
+		if g.key == "dfx" {
+			re.ex.Features["dfx-reached"]++
+		}
 		if f0.Name == "__typename" {
 			out[g.key] = objType
 			re.ex.Features["typename"]++
